@@ -6,6 +6,8 @@ import (
 	"fmt"
 	"strings"
 	"time"
+
+	"github.com/nats-io/nats.go"
 )
 
 // Package-level errors that can be returned by the library.
@@ -253,17 +255,28 @@ func IsPermanentError(err error) bool {
 		return false
 	}
 
-	if _, ok := err.(*TimeoutError); ok {
+	var timeoutErr *TimeoutError
+	if errors.As(err, &timeoutErr) {
 		return false
 	}
 	if errors.Is(err, context.DeadlineExceeded) {
 		return false
 	}
 
+	// What the NATS client really returns for a failed revision-checked
+	// update or a create on an existing key: JetStream API error 10071
+	// ("wrong last sequence: N", wrapped with "key exists" by Create).
+	var apiErr *nats.APIError
+	if errors.As(err, &apiErr) && apiErr.ErrorCode == nats.JSErrCodeStreamWrongLastSequence {
+		return true
+	}
+
 	errMsg := strings.ToLower(err.Error())
 
 	permanentPatterns := []string{
 		"revision mismatch",
+		"wrong last sequence",
+		"key exists",
 		"key not found",
 		"permission denied",
 		"bucket not found",
@@ -324,7 +337,8 @@ func IsTransientError(err error) bool {
 		return true
 	}
 
-	if _, ok := err.(*TimeoutError); ok {
+	var timeoutErr *TimeoutError
+	if errors.As(err, &timeoutErr) {
 		return true
 	}
 
